@@ -296,6 +296,15 @@ class PymbolicToASTMapper(CachedMapper):
         return self._map_multi_children_op(expr.children, ast.Mult())
 
     def map_constant(self, expr: ScalarT) -> ast.expr:
+        try:
+            import numpy as np
+        except ImportError:
+            pass
+        else:
+            if isinstance(expr, np.generic):
+                # ast.Constant only takes Python's own numbers
+                expr = expr.item()
+
         if isinstance(expr, bool):
             return ast.NameConstant(expr)
         elif isinstance(expr, (int, float)) and expr < 0:
